@@ -745,7 +745,14 @@ def join1(ctx: Ctx) -> None:
     mod = ctx.P.mod("_lowlevel")
     fn = mod.fn("_contexts_active_by_trickery")
     ctx.R.saw(mod, "_contexts_active_by_trickery")
-    src = {norm(s.targets[0]): s for s in fn.body if isinstance(s, ast.Assign) and len(s.targets) == 1}
+    def _flat(body):
+        # `with <something>:` blocks are transparent for the order and provenance of these assignments
+        for s_ in body:
+            if isinstance(s_, ast.With):
+                yield from _flat(s_.body)
+            else:
+                yield s_
+    src = {norm(s.targets[0]): s for s in _flat(fn.body) if isinstance(s, ast.Assign) and len(s.targets) == 1}
     need = {
         "with_block_info": "analyze_with_blocks(frame.f_code)",
         "frame_details": "inspect_frame(frame)",
@@ -785,7 +792,7 @@ def join1(ctx: Ctx) -> None:
             ctx.R.fail("JOIN-1", mod, ret, "each active block must yield with_block_info[handler] with obj = stack[level - 1].__self__ (the bound __exit__ one below the handler's depth)")
     else:
         # loop form: for b in with_blocks: ... ret.append(replace(with_block_info[b.handler], obj=X))
-        loops = [l for l in fn.body if isinstance(l, ast.For) and norm(l.iter) == "with_blocks" and isinstance(l.target, ast.Name)]
+        loops = [l for l in _flat(fn.body) if isinstance(l, ast.For) and norm(l.iter) == "with_blocks" and isinstance(l.target, ast.Name)]
         if len(loops) != 1:
             raise AnalysisError("JOIN-1: neither the ret list comprehension nor a loop over with_blocks found (the join was restructured; ALIAS-1 / EXI-1 still apply)")
         loop_form = loops[0]
